@@ -6,8 +6,11 @@
 //!   to happen in a prescribed total order (`gate` before the step, `done` after it has taken
 //!   effect), and every step is logged with a sequence number taken under the same lock (`mark`).
 //!
-//! Without `TCHERAN_VERIF_SCHEDULE` / `TCHERAN_VERIF_TRACE` in the environment and without a
-//! configured countdown every entry point returns immediately.
+//! * Limits of a `go`: with `TCHERAN_VERIF_GOLIMITS=<file>` every `go` appends one line with what the
+//!   command carried and the limits the time strategy computed from it (`note_go`).
+//!
+//! Without `TCHERAN_VERIF_SCHEDULE` / `TCHERAN_VERIF_TRACE` / `TCHERAN_VERIF_GOLIMITS` in the
+//! environment and without a configured countdown every entry point returns immediately.
 
 use std::io::Write;
 use std::sync::atomic::{AtomicI64, AtomicU64, Ordering};
@@ -167,4 +170,51 @@ pub fn done(label: &str) {
         g.cursor += 1;
     }
     s.v.notify_all();
+}
+
+/// What a `go` carried and the limits computed from it, as one JSON line (durations in ns, -1 = absent).
+pub struct GoNote {
+    pub white_to_move: bool,
+    pub kind: &'static str,
+    pub clocks: [Option<std::time::Duration>; 4],
+    pub moves_to_go: Option<u32>,
+    pub move_time: Option<std::time::Duration>,
+    pub depth: Option<u8>,
+    pub move_overhead: usize,
+    pub limits: (std::time::Duration, std::time::Duration),
+}
+
+pub fn note_go(n: &GoNote) {
+    static F: OnceLock<Option<Mutex<std::fs::File>>> = OnceLock::new();
+    let f = F.get_or_init(|| {
+        std::env::var("TCHERAN_VERIF_GOLIMITS").ok().and_then(|p| {
+            std::fs::OpenOptions::new()
+                .create(true)
+                .append(true)
+                .open(p)
+                .ok()
+                .map(Mutex::new)
+        })
+    });
+    let Some(f) = f else { return };
+
+    let ns = |d: Option<std::time::Duration>| d.map_or(-1, |x| x.as_nanos() as i128);
+    let mut g = f.lock().unwrap();
+    let _ = writeln!(
+        g,
+        "{{\"ev\":\"golimits\",\"stm\":\"{}\",\"tc\":\"{}\",\"wtime\":{},\"btime\":{},\"winc\":{},\"binc\":{},\"mtg\":{},\"mt\":{},\"depth\":{},\"ovh\":{},\"soft\":{},\"hard\":{}}}",
+        if n.white_to_move { "w" } else { "b" },
+        n.kind,
+        ns(n.clocks[0]),
+        ns(n.clocks[1]),
+        ns(n.clocks[2]),
+        ns(n.clocks[3]),
+        n.moves_to_go.map_or(-1, i64::from),
+        ns(n.move_time),
+        n.depth.map_or(-1, i64::from),
+        n.move_overhead,
+        n.limits.0.as_nanos(),
+        n.limits.1.as_nanos(),
+    );
+    let _ = g.flush();
 }
